@@ -26,7 +26,9 @@ RULE = ('router: histories of add-rule / remove-rule / deliver-message on Messag
         'prefix-sharing sibling path, or a removal between two deliveries; distinct = distinct case JSON. Callbacks return None / True / '
         'a string / 1 / False / a fired Deferred by turns: what a callback returns has no influence on the other rules. On the client '
         'side the bus refuses the first AddMatch of every fifth rule: addMatch fails and that callback is never invoked. Rule values '
-        'include apostrophes and commas. Every third callback is a bound method of an object only the subscription keeps alive.')
+        'include apostrophes and commas. Every third callback is a bound method of an object only the subscription keeps alive. '
+        'Container-typed arguments stand next to matched ones; the lists given as arg= / arg_path= are emptied or overwritten by '
+        'the caller right after the call (client side: while AddMatch is still unanswered).')
 ASSUMPTIONS = ['sender and arg0namespace are not in the statement and are never constrained',
                'rule values contain no apostrophe or comma (escaping is outside the statement)',
                'callbacks do not mutate the rule set while a message is being routed']
@@ -107,6 +109,17 @@ def _router_kwargs(r):
                 arg_paths=[tuple(x) for x in r['arg_paths']] if r.get('arg_paths') else None)
 
 
+def _reuse_lists(kw, idx):
+    """The lists handed over as arg= / arg_path= are the caller's own: it goes on using them (here: empties them, or fills in
+    something else) once the rule is registered - the rule is what was asked for at registration."""
+    for key in ('args', 'arg_paths'):
+        if kw.get(key):
+            if idx % 2:
+                del kw[key][:]
+            else:
+                kw[key][:] = [(0, 'something/else/')]
+
+
 def _near_miss_key(rule, msg):
     """Which single constraint (if exactly one) keeps the rule from matching."""
     ro = _rule_for_oracle(rule)
@@ -152,7 +165,9 @@ def run_router(case):
                     return _cb_result(idx)
                 if idx % 3 == 2:
                     cb = _Subscriber(cb).on_message      # a bound method of an object only the subscription keeps alive
-                active[idx] = rt.addMatch(cb, **_router_kwargs(r))
+                kw = _router_kwargs(r)
+                active[idx] = rt.addMatch(cb, **kw)
+                _reuse_lists(kw, idx)
             elif op[0] == 'remove':
                 if active:
                     idx = sorted(active)[op[1] % len(active)]
@@ -273,16 +288,18 @@ def message_near(draw, r, types):
     for i, v in r.get('arg_paths') or []:
         want[i] = ('s', v)
     n = (max(want) + 1) if want else draw(st.sampled_from([0, 1, 2]))
-    sig, trees = '', []
+    sig, trees = [], []         # sig: one complete type per ARGUMENT (joined at the end)
     for i in range(n):
         if i in want:
-            sig += 's'
+            sig.append('s')
             trees.append(want[i][1])
         else:
-            k = draw(st.sampled_from(['s', 's', 'i', 'o']))
-            sig += k
+            # (container-typed arguments make signature positions and argument indices drift apart)
+            k = draw(st.sampled_from(['s', 's', 'i', 'o', 'ai', 'a{su}', '(ii)', 'as']))
+            sig.append(k)
             trees.append(draw(st.sampled_from(ARGVALS)) if k == 's' else draw(st.sampled_from(PATHS)) if k == 'o'
-                         else draw(st.integers(0, 3)))
+                         else draw(st.integers(0, 3)) if k == 'i'
+                         else {'ai': [1, 2], 'a{su}': [['k', 1]], '(ii)': [1, 2], 'as': ['x']}[k])
     # one perturbation in a constrained place (or none: a full match)
     keys = [k for k in ('type', 'interface', 'member', 'path', 'path_namespace', 'destination') if r.get(k)]
     keys += ['arg:%d' % i for i in want]
@@ -306,11 +323,11 @@ def message_near(draw, r, types):
             trees[i] = draw(st.sampled_from(ARGVALS))
         elif how == 'int':
             # an integer where the rule wants a string - if possible the integer whose text IS that string
-            sig = sig[:i] + 'i' + sig[i + 1:]
+            sig[i] = 'i'
             trees[i] = int(want[i][1]) if want[i][1].isdigit() else 1
         else:
             sig, trees = sig[:i], trees[:i]
-    m['sig'], m['trees'] = sig, trees
+    m['sig'], m['trees'] = ''.join(sig), trees
     return m
 
 
@@ -321,9 +338,11 @@ def message(draw, types=(4, 4, 4, 4, 1, 2, 3)):
     sig = ''
     trees = []
     for _ in range(n):
-        k = draw(st.sampled_from(['s', 's', 's', 'o', 'i', 'as']))
+        k = draw(st.sampled_from(['s', 's', 's', 'o', 'i', 'as', 'a{su}', '(ii)']))
         sig += k
-        if k == 's':
+        if k in ('a{su}', '(ii)'):
+            trees.append([['k', 1]] if k == 'a{su}' else [1, 2])
+        elif k == 's':
             trees.append(draw(st.sampled_from(ARGVALS)))
         elif k == 'o':
             trees.append(draw(st.sampled_from(PATHS)))
@@ -402,6 +421,7 @@ def run_client(case):
                 d = rig.conn.addMatch(cb, mtype=kw['mtype'], interface=kw['interface'], member=kw['member'],
                                       path=kw['path'], path_namespace=kw['path_namespace'],
                                       destination=kw['destination'], arg=kw['args'], arg_path=kw['arg_paths'])
+                _reuse_lists(kw, idx)       # ... while the AddMatch call is still on its way to the bus
                 res = []
                 d.addBoth(res.append)
                 sent = [m for k, m in rig.sent_messages() if k == 'msg']
